@@ -74,6 +74,14 @@ def check_same(mkworld, r, spec_fn, shape, fi=(), fid=(), timeout_ms=10000, pre_
             except Unsupported as ex:
                 return undecided(f"{what}: spec cannot express this case: {ex}")
             pre = pre_fn(w) if pre_fn else ()
+            # cheap refutation attempt at random rational points before any solver work
+            quick = quick_refute(mkworld, r, spec_fn, c, env, pre_fn, tries=2, seed=n)
+            if quick is not None:
+                quick.update({"component": list(c), "index_values": {str(k): v_ for k, v_ in env.items()},
+                              "result_term": repr(r)[:3000], "what": what})
+                return violated(f"{what}: value differs at comp={c} env={env}: real code's result evaluates to "
+                                f"{quick['got']} but the spec value is {quick['spec']} at {quick['point']}",
+                                replay=quick, reproduced=True, backend="numeric-search", seconds=time.time() - t0)
             v = prove_equal(w, got, spec, timeout_ms, pre)
             n += 1
             if sample is None:
@@ -96,6 +104,36 @@ def check_same(mkworld, r, spec_fn, shape, fi=(), fid=(), timeout_ms=10000, pre_
         return undecided(f"{what}: {len(unknowns)}/{n} VCs undecided: " + "; ".join(unknowns[:3]), sample=sample,
                          seconds=time.time() - t0)
     return proved("+".join(sorted(backends)) or "z3-simplify", vcs=n, seconds=time.time() - t0, sample=sample)
+
+
+def quick_refute(mkworld, r, spec_fn, c, env, pre_fn=None, tries=2, seed=0):
+    """Evaluate both sides at a few random rational points (independent concrete world); returns a replay dict if they differ."""
+    import random
+    rnd = random.Random(4242 + seed)
+    for _ in range(tries):
+        vals = {}
+
+        def val(nm):
+            if nm not in vals:
+                vals[nm] = Fraction(rnd.randint(-6, 6) or 1, rnd.randint(1, 3))
+                if nm.startswith("co["):
+                    vals[nm] = Fraction(rnd.choice([-1, 1]))
+            return vals[nm]
+        try:
+            w = mkworld(False, val)
+            got = den(w, r, c, env)
+            spec = spec_fn(w, c, env)
+            if pre_fn and not all(bool(p) for p in pre_fn(w)):
+                continue
+            if not all(bool(x) for x in w.side):
+                continue
+            diff = concrete_diff(got, spec)
+            scale = max(1.0, max(abs(float(t)) for t in N.flatten(spec)))
+            if diff > 1e-7 * scale:
+                return {"reproduced": True, "got": _cstr(got), "spec": _cstr(spec), "point": {k: str(v) for k, v in sorted(vals.items())}}
+        except Exception:  # noqa: BLE001  (undefined at this point, unsupported in concrete mode, ...)
+            continue
+    return None
 
 
 def replay_point(mkworld, r, spec_fn, c, env, model):
@@ -190,3 +228,203 @@ def check_pred(mkworld, goal_fn, what="", timeout_ms=10000, pre_fn=None, info=No
                             reproduced=True, backend=v.backend, sample=sample, seconds=time.time() - t0)
         return undecided(f"{what}: solver model did not reproduce concretely", sample=sample)
     return undecided(f"{what}: {v.backend} unknown {v.detail}", sample=sample, seconds=time.time() - t0)
+
+
+# ----------------------------------------------------------------------------- typed conditions (radicals / signs)
+def nonneg_syntactic(t):
+    """Sound syntactic proof of t >= 0 for a z3 real term built from sqrt/abs atoms, squares, non-negative numerals,
+    products, quotients and sums of such."""
+    import z3
+    from ufv.alg import find_atoms
+    if not N.is_z3(t):
+        return t >= 0
+    t = z3.simplify(t)
+    if z3.is_rational_value(t):
+        return t.numerator_as_long() >= 0
+    if not z3.is_app(t):
+        return False
+    k = t.decl().kind()
+    if k == z3.Z3_OP_UNINTERPRETED and t.num_args() == 1 and t.decl().name() == "sqrt":
+        return True
+    if k == z3.Z3_OP_ITE:
+        a, b = t.arg(1), t.arg(2)
+        z = z3.simplify(a + b, som=True)
+        if z3.is_rational_value(z) and z.numerator_as_long() == 0:
+            return True        # |x|
+        return nonneg_syntactic(a) and nonneg_syntactic(b)
+    args = [t.arg(i) for i in range(t.num_args())]
+    if k in (z3.Z3_OP_ADD,):
+        return all(nonneg_syntactic(a) for a in args)
+    if k == z3.Z3_OP_MUL:
+        # pair up identical factors (squares)
+        rest = []
+        for a in args:
+            for j, r in enumerate(rest):
+                if r.eq(a):
+                    rest.pop(j)
+                    break
+            else:
+                rest.append(a)
+        return all(nonneg_syntactic(a) for a in rest)
+    if k == z3.Z3_OP_DIV:
+        return nonneg_syntactic(args[0]) and nonneg_syntactic(args[1])
+    if k == z3.Z3_OP_POWER:
+        e = z3.simplify(args[1])
+        if z3.is_rational_value(e) and e.denominator_as_long() == 1 and e.numerator_as_long() % 2 == 0:
+            return True
+        return nonneg_syntactic(args[0])
+    return False
+
+
+def check_conds(mkworld, conds_fn, what="", timeout_ms=10000, pre_fn=None, samples=4, sample_ok=None, extra_rel_fn=None,
+                ncomponents=1):
+    """conds_fn(world) -> list of typed conditions over spec-algebra values:
+         ('eq', lhs, rhs)            identity (radicals allowed)
+         ('ge0', v)                  v >= 0
+         ('sign', v, s, why)         sign(v) == s (+1/-1), decided by evaluation at sample points of every connected component
+                                     of the admissible configuration space; `why` states why the sign is locally constant.
+    Each is decided for all symbol values; returns a core.Result."""
+    import random
+    import z3
+    from ufv.alg import is_identically_zero
+    from ufv.smt import check_formula, _is_zero_term, ratnorm
+    t0 = time.time()
+    w = mkworld(True, None)
+    try:
+        conds = conds_fn(w)
+    except Unsupported as ex:
+        return undecided(f"{what}: spec cannot express this case: {ex}")
+    pre = list(pre_fn(w)) if pre_fn else []
+    rels = extra_rel_fn(w) if extra_rel_fn else ()
+    backends = set()
+    sample = None
+    for ci, cnd in enumerate(conds):
+        kind = cnd[0]
+        if kind == "eq":
+            r0 = _cond_violation(mkworld, conds_fn, ci, what, pre_fn, None, t0, tries=3)
+            if r0 is not None and r0.status == "violated":
+                return r0
+            diffs = [t for t in N.flatten(N.sub(cnd[1], cnd[2]))]
+            for t in diffs:
+                if not N.is_z3(t):
+                    if t != 0:
+                        return _cond_violation(mkworld, conds_fn, ci, what, pre_fn, None, t0)
+                    continue
+                if _is_zero_term(t):
+                    backends.add("z3-simplify")
+                    continue
+                n_, d_ = ratnorm(t)
+                if d_ is not None and _is_zero_term(n_):
+                    backends.add("z3-simplify(cleared-denominators)")
+                    continue
+                z, info, natoms = is_identically_zero(t, rels)
+                if z:
+                    backends.add(f"poly-normaliser({natoms} algebraic atoms)")
+                    continue
+                # numeric search for a counterexample before any solver work
+                r = _cond_violation(mkworld, conds_fn, ci, what, pre_fn, None, t0, tries=6)
+                if r is not None and r.status == "violated":
+                    return r
+                v = check_formula(list(w.axioms) + list(w.side) + pre, t == 0, timeout_ms)
+                if v.status == "proved":
+                    backends.add(v.backend)
+                    continue
+                if v.status == "refuted":
+                    return _cond_violation(mkworld, conds_fn, ci, what, pre_fn, v.model, t0)
+                return undecided(f"{what}: condition #{ci} (eq) undecided: normaliser={info}, z3={v.detail}", seconds=time.time() - t0)
+            if sample is None:
+                sample = f"{what}: eq {_short(cnd[1], 120)} == {_short(cnd[2], 120)}"
+        elif kind == "ge0":
+            t = N.base_value(cnd[1])
+            if nonneg_syntactic(t):
+                backends.add("sign-analysis")
+                continue
+            v = check_formula(list(w.axioms) + list(w.side) + pre, t >= 0, timeout_ms)
+            if v.status == "proved":
+                backends.add(v.backend)
+                continue
+            if v.status == "refuted":
+                return _cond_violation(mkworld, conds_fn, ci, what, pre_fn, v.model, t0)
+            r = _cond_violation(mkworld, conds_fn, ci, what, pre_fn, None, t0, tries=12)
+            if r is not None and r.status == "violated":
+                return r
+            return undecided(f"{what}: condition #{ci} (>= 0) undecided", seconds=time.time() - t0)
+        elif kind == "sign":
+            rnd = random.Random(12345 + ci)
+            seen = {}
+            tries = 0
+            while tries < 400 and (len(seen) < ncomponents or min(seen.values()) < samples):
+                tries += 1
+                vals = {}
+
+                def val(nm, rnd=rnd, vals=vals):
+                    if nm not in vals:
+                        vals[nm] = Fraction(rnd.randint(-9, 9), rnd.randint(1, 4))
+                        if nm.startswith("co["):
+                            vals[nm] = Fraction(rnd.choice([-1, 1]))
+                    return vals[nm]
+                cw = mkworld(False, val)
+                try:
+                    cc = conds_fn(cw)
+                    if pre_fn and not all(bool(p) for p in pre_fn(cw)):
+                        continue
+                    if not all(bool(x) for x in cw.side):
+                        continue
+                    comp = sample_ok(cw) if sample_ok else 0
+                    sv = float(N.base_value(cc[ci][1]))
+                except (ZeroDivisionError, ValueError, OverflowError):
+                    continue
+                seen[comp] = seen.get(comp, 0) + 1
+                if (sv > 0) != (cnd[2] > 0) or sv == 0:
+                    return violated(f"{what}: condition #{ci}: sign of the quantity is {'+' if sv > 0 else '-'} but must be "
+                                    f"{'+' if cnd[2] > 0 else '-'} at {dict((k, str(v)) for k, v in vals.items())}",
+                                    replay={"what": what, "point": {k: str(v) for k, v in vals.items()}, "value": sv},
+                                    reproduced=True, backend="sample-point", seconds=time.time() - t0)
+            if len(seen) < ncomponents:
+                return undecided(f"{what}: sample points found only in components {sorted(seen)} of {ncomponents}")
+            backends.add(f"sign-at-sample-points(components={sorted(seen)})")
+        else:
+            raise ValueError(kind)
+    return proved("+".join(sorted(backends)), vcs=len(conds), seconds=time.time() - t0, sample=sample or what)
+
+
+def _cond_violation(mkworld, conds_fn, ci, what, pre_fn, model, t0, tries=1):
+    """Try to exhibit a concrete point where condition ci fails (from a solver model or random rational points)."""
+    import random
+    rnd = random.Random(777)
+    for k in range(tries):
+        base = valuation_from_model(model) if (model and k == 0) else None
+        vals = {}
+
+        def val(nm):
+            if nm not in vals:
+                vals[nm] = base(nm) if base else Fraction(rnd.randint(-7, 7), rnd.randint(1, 3))
+                if nm.startswith("co[") and not base:
+                    vals[nm] = Fraction(rnd.choice([-1, 1]))
+            return vals[nm]
+        try:
+            cw = mkworld(False, val)
+            cc = conds_fn(cw)
+            if pre_fn and not all(bool(p) for p in pre_fn(cw)):
+                continue
+            if not all(bool(x) for x in cw.side):
+                continue
+            cnd = cc[ci]
+            if cnd[0] == "eq":
+                d = concrete_diff(cnd[1], cnd[2])
+                scale = max(1.0, max(abs(float(t)) for t in N.flatten(cnd[2])))
+                bad = d > 1e-8 * scale
+                desc = f"lhs={_cstr(cnd[1])} rhs={_cstr(cnd[2])}"
+            else:
+                v = float(N.base_value(cnd[1]))
+                bad = v < -1e-12
+                desc = f"value={v}"
+            if bad:
+                return violated(f"{what}: condition #{ci} ({cnd[0]}) fails: {desc} at {dict((k, str(v)) for k, v in vals.items())}",
+                                replay={"what": what, "condition": ci, "point": {k: str(v) for k, v in vals.items()}, "values": desc},
+                                reproduced=True, backend="z3+replay" if model else "numeric-search", seconds=time.time() - t0)
+        except (ZeroDivisionError, ValueError, OverflowError, Unsupported):
+            continue
+    if model:
+        return undecided(f"{what}: condition #{ci}: solver model did not reproduce concretely")
+    return None
